@@ -110,5 +110,5 @@ package dns
 //@   exit res: ret0 == callres("tsigVerify")
 //@ func TsigVerifyWithProvider [C11]
 //@   opt no-safety
-//@   callsite "tsigVerify" same: same(arg0, msg) && arg1 == provider && arg2 == requestMAC && arg3 == timersOnly && (callres("Unix") >= 0 ==> arg4 == callres("Unix"))
+//@   callsite "tsigVerify" same: same(arg0, msg) && arg1 == provider && same(arg2, old(requestMAC)) && arg3 == old(timersOnly) && (callres("Unix") >= 0 ==> arg4 == callres("Unix"))
 //@   exit res: ret0 == callres("tsigVerify")
